@@ -120,7 +120,10 @@ def cliOp (args impl : List String) : Option (String × String) := do
               | .ok (cnt, unit) =>
                 -- a distributed rate is evaluated once per cycle of ⌊unit / 100 ms⌋ sub-ticks of 100 ms
                 let cycle := if p.interval < unit ∧ p.interval > 0 then (unit / p.interval) * p.interval else unit
-                let evalsMax := 1 + p.maxDur / cycle
+                -- (stall-robust: a run that overran its max-duration — the deadline timer fired late on a loaded machine —
+                -- is measured against how long it really lasted)
+                let lasted := max p.maxDur (n "ret" * 1000000)
+                let evalsMax := 1 + lasted / cycle
                 let lo := if p.maxIt > 0 ∧ (p.maxIt : Int) < cnt then (p.maxIt : Int) else cnt
                 -- a distributed rate spreads each cycle over the unit: only the ceiling holds for short runs
                 some (if (get "meaning") = some "1" then lo else 0, cnt * evalsMax)
@@ -145,8 +148,9 @@ def cliOp (args impl : List String) : Option (String × String) := do
                 !(total == full || total == butLast)
               | _ => false
             else false
+          let expTicksMax : Int := if p.interval > 0 then (max p.maxDur (n "ret" * 1000000)) / p.interval else 0
           if exactBad then "FAIL started-plus-dropped-is-not-the-sum-of-the-profile-values-of-the-accepted-ticks"
-          else if (get "timing") = some "1" ∧ p.interval > 0 ∧ n "ticks" > expTicks + 2 then "FAIL more-ticks-than-one-per-interval"
+          else if (get "timing") = some "1" ∧ p.interval > 0 ∧ n "ticks" > expTicksMax + 2 then "FAIL more-ticks-than-one-per-interval"
           else if (get "timing") = some "1" ∧ p.interval > 0 ∧ expTicks ≥ 5 ∧ n "ticks" * 10 < expTicks * 4 then
             "FAIL far-fewer-ticks-than-the-tick-interval-of-the-rate-function"
           else if (get "timing") = some "1" ∧ (get "sigint").isNone ∧ n "ret" < durMs - 15 then "FAIL run-ended-before-max-duration"
